@@ -1869,7 +1869,7 @@ def check_C02(A, R, tier):
             if not ok and own is not None and all(gated_entry.get(o, False) for o in own):
                 ok = True
             R.ob("R2.1", "%s | %s handler from %s | a job is announced ready only after all its direct upstreams finished"
-                 % (short(v["fn"]), A.kname(k), A.sname(s)), ok and is_role(v["key"], "sigtarget") and set(v["kinds"]) == {K["ready"]},
+                 % (short(v["fn"]), A.kname(k), A.sname(s)), ok and is_role(v["key"], "sigtarget"),
                  detail=why, site=A.site(v))
     R.floor("R2.1", "emissions of the ready signal", n, 4)
     # the ready signal comes from nowhere else
